@@ -12,6 +12,7 @@ import (
 	"fmt"
 	"hash/crc32"
 	"io"
+	"sync"
 	"testing"
 
 	"github.com/jdillenkofer/pithos/internal/checksumutils"
@@ -30,6 +31,10 @@ type Case struct {
 	BufLen int          `json:"buf_len"` // consumer buffer length
 	Split  int          `json:"split"`   // |a| for combine(crc(a), crc(b), |b|)
 	Mode   string       `json:"mode"`    // both | stream | combine
+	// Par > 1: the combine identity is additionally evaluated by Par goroutines at once (different split
+	// points each, 40 rounds): the combine functions are called concurrently by multipart completes, appends
+	// and the integrity validator, so their arithmetic must not depend on other calls in flight.
+	Par int `json:"par,omitempty"`
 }
 
 // ---- independent reference implementations -------------------------------------
@@ -237,6 +242,46 @@ func run(env *ev.Env, c Case) (o ev.Outcome) {
 		if split == 0 || split == len(data) {
 			o.Class("split:at-end")
 		}
+		if c.Par > 1 && c.Par <= 16 {
+			o.Class("combine:concurrent-callers")
+			errs := make(chan string, c.Par)
+			var wg sync.WaitGroup
+			for g := 0; g < c.Par; g++ {
+				sp := 0
+				if len(data) > 0 {
+					sp = (split + g*(len(data)/c.Par+1)) % (len(data) + 1)
+				}
+				a, b := data[:sp], data[sp:]
+				in32a, in32b, w32 := be32(crc32.ChecksumIEEE(a)), be32(crc32.ChecksumIEEE(b)), be32(crc32.ChecksumIEEE(data))
+				inCa, inCb, wC := be32(refCRC32C(a)), be32(refCRC32C(b)), be32(refCRC32C(data))
+				in64a, in64b, w64 := be64(refCRC64(a)), be64(refCRC64(b)), be64(refCRC64(data))
+				wg.Add(1)
+				go func(g, sp int) {
+					defer wg.Done()
+					for r := 0; r < 40; r++ {
+						if got := checksumutils.CombineCrc32(in32a, in32b, int64(len(b))); !bytes.Equal(got, w32) {
+							errs <- fmt.Sprintf("CombineCrc32(|a|=%d,|b|=%d) = %x with %d concurrent callers, crc(a||b) = %x", sp, len(b), got, c.Par, w32)
+							return
+						}
+						if got := checksumutils.CombineCrc32c(inCa, inCb, int64(len(b))); !bytes.Equal(got, wC) {
+							errs <- fmt.Sprintf("CombineCrc32c(|a|=%d,|b|=%d) = %x with %d concurrent callers, crc(a||b) = %x", sp, len(b), got, c.Par, wC)
+							return
+						}
+						if got := checksumutils.CombineCrc64Nvme(in64a, in64b, int64(len(b))); !bytes.Equal(got, w64) {
+							errs <- fmt.Sprintf("CombineCrc64Nvme(|a|=%d,|b|=%d) = %x with %d concurrent callers, crc(a||b) = %x", sp, len(b), got, c.Par, w64)
+							return
+						}
+					}
+				}(g, sp)
+			}
+			wg.Wait()
+			close(errs)
+			o.Sub += 3 * 40 * c.Par
+			for e := range errs {
+				o.Failf("%s", e)
+				return
+			}
+		}
 	}
 	// non-trivial: exhaustive part: all; random part: length within ±1 of a
 	// hash-block multiple or a split at an end of the string.
@@ -311,6 +356,17 @@ func genCase(t *rapid.T, env *ev.Env) Case {
 		c.Split = c.Body.Len
 	default:
 		c.Split = rapid.IntRange(0, c.Body.Len).Draw(t, "split")
+	}
+	if rapid.IntRange(0, 9).Draw(t, "par") == 7 {
+		// the CRC references are bitwise: keep the strings of the concurrent sub-check short
+		c.Par = rapid.SampledFrom([]int{2, 4, 8}).Draw(t, "parN")
+		c.Mode = "combine"
+		if c.Body.Len > 70000 {
+			c.Body.Len = rapid.SampledFrom([]int{1, 255, 4096, 65536, 70000}).Draw(t, "parLen")
+			if c.Split > c.Body.Len {
+				c.Split = c.Body.Len
+			}
+		}
 	}
 	return c
 }
